@@ -42,8 +42,9 @@ def charts(g):
     from sismic.model import Statechart, CompoundState, BasicState, Transition
     snd = Statechart('sender')
     snd.add_state(CompoundState('r', initial='A'), None)
-    snd.add_state(BasicState('A'), 'r')
+    snd.add_state(BasicState('A', on_entry="send('hello', n=1)"), 'r')
     snd.add_transition(Transition('A', 'A', event='go', guard='G()', action='ACT(send, notify)'))
+    snd.add_transition(Transition('A', None, event='hello', action="REC('S', event)"))
     snd.add_transition(Transition('A', None, event='msg', action="REC('S', event)"))
     snd.add_transition(Transition('A', None, event='msg2', action="REC('S', event)"))
     snd.add_transition(Transition('A', None, event='fwd', action="REC('S', event)"))
@@ -105,13 +106,13 @@ def harness(g, job, level, canary=False):
     def mk_callable(nm):
         def fn(e):
             deliveries.append((nm, e))
-            if nm == 'c1' and detach_mode == 'during_later' and not state['detached']:
+            if nm == 'c1' and detach_mode == 'during_later' and not state['detached'] and e.name != 'hello':
                 later = [x for x in order if order.index(x) > order.index('c1')]
                 if later:
                     S.detach(listeners[later[0]])
                     state['detached'] = later[0]
                     g.witness('detach_during_delivery')
-            if nm == 'c1' and detach_mode == 'during_self' and not state['detached']:
+            if nm == 'c1' and detach_mode == 'during_self' and not state['detached'] and e.name != 'hello':
                 S.detach(listeners['c1'])
                 state['detached'] = 'c1'
                 g.witness('detach_during_delivery')
@@ -127,8 +128,22 @@ def harness(g, job, level, canary=False):
         listeners[x] = S.bind(T[x] if x in T else mk_callable(x))
     if cycle and 'T1' in order:
         T['T1'].bind(S.queue)
-    for it in [S] + list(T.values()):
+    for it in list(T.values()):
         it.execute_once()
+    first = S.execute_once()          # A is entered by stabilisation: its entry code sends `hello`
+    hello = [e for e in first.sent_events if isinstance(e, InternalEvent)]
+    got0 = [(w, e) for w, e in deliveries]
+    exp0 = [(x, e) for e in hello for x in order]
+    g.prove(len(hello) == 1 and [w for w, _ in got0] == [w for w, _ in exp0]
+            and all(type(e) is Event and e.name == 'hello' and dict(e.data) == {'n': 1} for _, e in got0),
+            'events_sent_during_default_entry_are_listed_and_delivered',
+            lambda: {'order': order, 'listed': [e.name for e in first.sent_events],
+                     'delivered': [(w, e.name) for w, e in got0]})
+    for rnd in range(3):
+        for it in [S] + list(T.values()):
+            for _ in range(4):
+                if it.execute_once() is None:
+                    break
     info = lambda: {'order': order, 'cycle': cycle, 'detach': detach_mode, 'nsend': nsend,   # noqa: E731
                     'deliveries': [(w, e.name, type(e).__name__) for w, e in deliveries][-12:]}
     active = list(order)
@@ -147,7 +162,8 @@ def harness(g, job, level, canary=False):
         fired = st is not None and len(st.transitions) > 0
         # expected deliveries of this macro step
         internal = [] if st is None else [e for e in st.sent_events if isinstance(e, InternalEvent)]
-        g.prove(len(internal) == len(sent_spec) and (not fired or len([e for e in st.sent_events
+        # (the external self-loop re-enters A, whose entry code sends `hello` once more)
+        g.prove(len(internal) == len(sent_spec) + (1 if fired else 0) and (not fired or len([e for e in st.sent_events
                 if isinstance(e, MetaEvent)]) == 1), 'macro_step_lists_what_was_sent', info)
         exp = []
         cur = list(active)
@@ -182,7 +198,7 @@ def harness(g, job, level, canary=False):
             g.witness('delayed_event_delivered_once')
         # let everybody run to quiescence: the sender consumes its own copies as internal events
         del consumed[:]
-        n_own = len(internal)
+        n_own = len([e for e in internal if e.name in ('msg', 'msg2')])
         for it in [S] + list(T.values()):
             far = it.clock.time
             for x in sent_spec:
@@ -201,7 +217,7 @@ def harness(g, job, level, canary=False):
             g.witness('sender_consumes_internal_copy')
         for nm in ('T1', 'T2'):
             rec = [e for w, e in consumed if w == nm]
-            want = [e for w, e in exp if w == nm]
+            want = [e for w, e in exp if w == nm and e.name in ('msg', 'msg2')]
             g.prove(len(rec) == len(want) and all(type(e) is Event for e in rec), 'target_consumes_each_delivery_once', info)
         if cycle and 'T1' in active and any(e.name == 'msg' for e in internal):
             fw = [e for w, e in consumed if w == 'S' and e.name == 'fwd']
